@@ -101,6 +101,7 @@ class Ctx:
         self.branch_timeout_ms = branch_timeout_ms
         self.max_decisions = max_decisions
         self.notes = []
+        self.goal_guards = []
         self.heap_writes = []          # (buffer, description) for frame conditions
         self.allocs = 0
         self.solver_time = 0.0
@@ -112,6 +113,13 @@ class Ctx:
         if z3.is_true(t):
             return
         self.hyps.append(t)
+
+    def skolem(self, t):
+        """range assumption on a skolem constant of a universally quantified *goal* (e.g. 0 <= r < n for the
+        generic row r): logically part of the goal, so the vacuity canary ignores it"""
+        t = as_bool_term(t)
+        self.hyps.append(t)
+        self.goal_guards.append(t)
 
     def assume_forall(self, name, fn, arity=1):
         self.schemas.append(Schema(name, fn, arity))
@@ -229,6 +237,7 @@ class Ctx:
         for e in extra_pool:
             self.add_index(e)
         ob = Obligation(name, self.hyps, self.schemas, self.pool, goal, kind, info)
+        ob.guards = list(self.goal_guards)
         self.obligations.append(ob)
         return ob
 
